@@ -1,6 +1,8 @@
 SPECIFICATION TraceSpec
 CONSTANTS
   V4 = TRUE
+  Loops = {1, 2}
+  ServerWideBuffer = FALSE
   StopOnParseError = FALSE
   ReuseReadBuffer = FALSE
 INVARIANTS InvOK
